@@ -11,10 +11,10 @@ cd $wt/src
 make -j8 >/dev/null 2>&1; make clean >/dev/null 2>&1; make -j8 >/dev/null 2>&1
 tests_with=$(make -k -j8 check 2>&1 | grep -E "^# (PASS|FAIL)" | tr '\n' ' ')
 (cd $wt && bash demo/run.sh >/tmp/demo_with_$name.log 2>&1); demo_with=$?
-git -C $wt stash push -q -- src
+git -C $wt apply -R $out/patch.diff
 make -j8 >/dev/null 2>&1
 (cd $wt && bash demo/run.sh >/tmp/demo_without_$name.log 2>&1); demo_without=$?
-git -C $wt stash pop -q
+git -C $wt apply $out/patch.diff
 echo "tests_with_change: $tests_with; demo_with_change_exit=$demo_with; demo_without_change_exit=$demo_without"
 # run the check against it
 cd /verif
